@@ -15,7 +15,7 @@ Translated: everything between the computation of `region_contigs` / `region_sta
                                                         -> gen_trailing
     return self._filter_empty_and_refine(regions)       (checked: the list is handed on unchanged)
 
-Statement forms of a body: `x = e` (local), `regions.append(Region(c[, start[, end]]))`, `if c: .. [else: ..]`
+Statement forms of a body (a guard clause `if c: ..; continue` is read as if/else): `x = e` (local), `regions.append(Region(c[, start[, end]]))`, `if c: .. [else: ..]`
 (locals assigned in a branch are not visible after it), `for v in range(a, b): <appends, optionally under an if>`.
 Expressions: integer literals, locals, + and -, `region_starts[e]`, `region_contigs[e]` (e may be -1),
 `len(region_starts)`, `len(self.sequence_names)`, `self.index.record_counts[e]`, comparisons, and
@@ -161,6 +161,12 @@ class T:
             return f"let v_{v} := {t} in\n    " + self.block(rest, dict(env, **{v: ("v_" + v, k)}))
         if isinstance(st, ast.Expr) and isinstance(st.value, ast.Call) and src(st.value.func) == f"{self.acc}.append" and len(st.value.args) == 1:
             return f"[{self.region(st.value.args[0], env)}] ++ " + self.block(rest, env)
+        if isinstance(st, ast.If) and not st.orelse and strip(st.body) and isinstance(strip(st.body)[-1], ast.Continue):
+            # guard clause:  if c: <body>; continue   <rest>   ==   if c: <body> else: <rest>
+            st = ast.If(test=st.test, body=strip(st.body)[:-1] or [ast.Pass()], orelse=rest)
+            rest = []
+        if isinstance(st, ast.Pass):
+            return self.block(rest, env)
         if isinstance(st, ast.If):
             inner = (self.assigned(st.body) | self.assigned(st.orelse)) - set(env)
             if inner & self.used(rest):
